@@ -5,7 +5,7 @@ import warnings
 
 ID = 'C15'
 LEVEL = 'proof'
-CONTRACTS = ['contracts.explainer']
+CONTRACTS = ['contracts.explainer', 'contracts.batch']
 _CALL = ['seen', 'budget', 'impute_calls', 'storage_last', 'result_is_property', 'args_unchanged', 'first_only_seeds',
          'count:storage_update', 'frame:feature_names', 'frame:_model_function', 'frame:_loss_function', 'frame:n_inner_samples',
          'single_feature_subset', 'complement_subset', 'calls', 'frame', 'loss_positional', 'loss_arity', 'model_positional']
@@ -15,6 +15,12 @@ CLOSURE = [
     {'fn': 'IncrementalPFI.explain_one', 'clauses': _CALL},
     {'fn': 'IncrementalSage.explain_one', 'clauses': _CALL},
     {'fn': 'Explainer.importance_values'},
+    {'fn': 'BatchSage.__init__', 'clauses': ['fresh_state', 'inv:*']},
+    {'fn': 'IntervalSage.__init__', 'clauses': ['fresh_state', 'cfg', 'inv:*']},
+    {'fn': 'BatchExplainer.explain_many', 'clauses': ['inv:keys', 'loss_positional', 'args_unchanged', 'frame:feature_names', 'result_is_field']},
+    {'fn': 'BatchExplainer.explain_many_original', 'clauses': ['inv:keys', 'loss_positional', 'args_unchanged', 'frame:feature_names', 'result_is_field']},
+    {'fn': 'BatchSage.explain_one', 'clauses': ['result_is_field', 'frame:feature_names', 'inv:keys']},
+    {'fn': 'IntervalSage.explain_one', 'clauses': ['seen', 'result_is_field', 'frame:feature_names', 'inv:keys', 'count:storage_update']},
 ]
 EXPLANATION = ("(a) every constructor with all optional parameters at their defaults (and every combination of given/omitted ones) ends "
                "without an exception; (b) call-shape obligation at every call site of the loss: positional, two arguments, no keyword; "
